@@ -421,6 +421,15 @@ def _drop_plan(rng, frames):
 
 
 def c07(res, wd):
+    variants = [("k2_w1_f2", {"Window": 1, "MaxFrame": 2, "Mortal": "{1}"})]
+    if res.tier == "thorough":
+        variants += [("k2_w2_f3", {"Window": 2, "MaxFrame": 3, "Mortal": "{1}"}),
+                     ("k2_w0_f3", {"Window": 0, "MaxFrame": 3, "Mortal": "{1}"}),
+                     ("k21_w1_f2", {"Window": 1, "MaxFrame": 2, "Mortal": "{0}", "Peers": "GenPeers21", "NumPlayers": 3})]
+    model_session(res, wd, "C07", variants, {"C07"})
+    ns, depth = sizes(res.tier, (8, 100), (60, 150))
+    engines.s2i_runs(res, "C07", wd, "g2k", {"MaxFrame": 8, "Mortal": "{0, 1}", "MaxSteps": depth - 10},
+                     ns, depth, {"C07"})
     n = sizes(res.tier, 24, 160)
     rng = random.Random(res.seed * 1000 + 70)
     ps = [_drop_plan(rng, rng.choice([60, 120, 250])) for _ in range(n)]
@@ -519,6 +528,38 @@ def c11(res, wd):
                 "must violate the monitor.  non-trivial = >=20 frames verified final")
 
 
+# ---------------------------------------------------------------------------------------------
+# C10: survivors agree on the cut-off of a dropped player (3+ peers)
+# ---------------------------------------------------------------------------------------------
+
+def c10(res, wd):
+    ns, depth = sizes(res.tier, (16, 110), (120, 160))
+    props = {"C10", "C07", "C01"}
+    # TLC-simulated behaviours of System.tla with three peers, one of which dies at any moment (its
+    # packets in flight reach the survivors unevenly: every link delivers/drops independently),
+    # replayed on three real sessions; Trace_Sys binds, the monitor judges
+    for w in (1, 2):
+        engines.s2i_runs(res, "C10", wd, "g3k_w%d" % w,
+                         {"Peers": "GenPeers3", "NumPlayers": 3, "Window": w, "MaxFrame": 7, "Mortal": "{0, 1, 2}",
+                          "MaxSteps": depth - 10, "LinkCap": 2, "InboxCap": 2},
+                         ns // 2, depth, props)
+    n, frames = sizes(res.tier, (20, 120), (150, 400))
+    ps = plans.batch(res.seed * 1000 + 100, n, frames, fam=plans.drop3)
+    engines.obs_runs(res, "C10", ps, props, wd, "c10",
+                     nontrivial=lambda st, pl: st["discInputs"] >= 5)
+    res.rule = ("three or four rollback-mode peers, one dies at a random frame while per-link latency/loss give the "
+                "survivors different or equal amounts of its input: (1) TLC-simulated behaviours of System.tla "
+                "(Mortal peers, disconnect_player by the survivors, per-link delivery) replayed on real sessions with "
+                "Trace_Sys conformance; (2) random runs with time-out based detection.  Monitor.tla demands: no panic, "
+                "every survivor's final timeline coherent (C07 predicates) and, at the end, the same cut-off for the "
+                "dropped player on every survivor (CutoffV).  The history class 'survivors hold different amounts of "
+                "the dropped player's input' is computed by the monitor (PanicLine) and matched against "
+                "known_findings.json; any violation outside that class is reported.  non-trivial = >=5 frames "
+                "simulated with a Disconnected input")
+    res.assumptions += ["exhaustive exploration of three peers is out of reach (>700 s at 2 frames); the model part of "
+                        "this check is TLC simulation, not exhaustion"]
+
+
 CHECKS = {
     "C01": c01,
     "C02": c02,
@@ -528,6 +569,7 @@ CHECKS = {
     "C06": c06,
     "C07": c07,
     "C09": c09,
+    "C10": c10,
     "C11": c11,
 }
 
